@@ -16,6 +16,9 @@ try:
     tsan = '-fsanitize=thread' if ('fsanitize=thread' in demo or 'ThreadSanitizer' in demo) else ''
     if '-funsigned-char' in demo:
         tsan += ' -funsigned-char'
+    # explicit override next to the demo: a file `demo_flags` with the extra compiler flags (may be empty)
+    if os.path.exists(os.path.join(d, 'demo_flags')):
+        tsan = open(os.path.join(d, 'demo_flags')).read().strip()
     for defs in ('-DNDEBUG ' + tsan, tsan):
         variants.append(base % (defs, '%s'))
     chosen = {}
